@@ -1,10 +1,12 @@
 package main
 
 import (
+	"bytes"
 	"encoding/json"
 	"fmt"
 
 	"github.com/gobwas/ws"
+	"github.com/gobwas/ws/wsflate"
 	"github.com/gobwas/ws/wsutil"
 	"wsverif/vh"
 )
@@ -63,6 +65,10 @@ func (t *traceSink) finish(c *ctx) {
 		t.meta.Extra = map[string]interface{}{}
 	}
 	t.meta.Extra["events"] = t.events
+	if t.meta.Property == "C18" {
+		t.meta.Extra["struct_only_differences"] = structOnlyDiffs
+		t.meta.Extra["hooks_on"] = hooksOn
+	}
 	t.out.Close()
 	t.meta.Files = map[string][]string{"traces": t.out.Files}
 	t.meta.Write(c.dir)
@@ -129,12 +135,25 @@ var wSuffixAlphabet = []wop{
 	{"WriteThrough", "1", ""}, {"ReadFrom", "a+1", "eof"}, {"FlushFragment", "", ""}, {"Flush", "", ""},
 }
 
+// evJSON is what the lock-step comparison with a fresh twin looks at: everything the caller can
+// observe through the exported API (results, error classes, frames at the destination, Size /
+// Available / Buffered).  The struct-level projection is NOT part of it - C18 speaks about behaviour,
+// and a correct implementation is free to keep its bookkeeping differently after a reset; struct
+// differences are counted separately (structOnlyDiffs, reported in the evidence, never a verdict).
 func evJSON(e wev) string {
 	e.Key, e.Calls = "", 0
-	// the size of the underlying allocation is not behaviour: a grown buffer keeps the larger header
-	// reservation where a new writer of the same Size() reserves less
-	e.St.Raw = 0
+	e.St = wst{}
 	b, _ := json.Marshal(e)
+	return string(b)
+}
+
+var structOnlyDiffs int
+
+func stJSON(e wev) string {
+	// the size of the underlying allocation is not even bookkeeping that matters: a grown buffer keeps
+	// the larger header reservation where a new writer of the same Size() reserves less
+	e.St.Raw = 0
+	b, _ := json.Marshal(e.St)
 	return string(b)
 }
 
@@ -227,6 +246,9 @@ func c18w(c *ctx) {
 									if ri+1+i < len(evs) {
 										if evJSON(evs[ri+1+i]) == evJSON(tw[i]) {
 											evs[ri+1+i].Twin = "same"
+											if stJSON(evs[ri+1+i]) != stJSON(tw[i]) {
+												structOnlyDiffs++
+											}
 										} else {
 											evs[ri+1+i].Twin = "diff"
 										}
@@ -421,6 +443,73 @@ func c13w(c *ctx) {
 				}
 			}
 		}
+	}
+	// one message cut into very many fragments (beyond 2^16, and, thorough, beyond 2^17): only the first
+	// frame carries the message opcode and the compression bit, whatever the number of fragments
+	// (too long for a TLC trace: the frames are judged here, by the same rule the monitor applies)
+	for li, cfgl := range []struct {
+		n     int
+		side  string
+		total int
+	}{{1, "server", 1<<16 + 9}, {1, "client", 1<<16 + 3}, {2, "server", 1<<17 + 5}} {
+		if li == 2 && !c.thorough {
+			continue
+		}
+		key := fmt.Sprintf("rsvlong/%d/%s/%d", cfgl.n, cfgl.side, cfgl.total)
+		if !vh.Only(key) {
+			continue
+		}
+		d := &vh.Dest{}
+		w := wsutil.NewWriterSize(d, wsState(cfgl.side), ws.OpBinary, cfgl.n)
+		var ms wsflate.MessageState
+		ms.SetCompressed(true)
+		w.SetExtensions(&ms)
+		msg := vh.PBytes(3, 0, cfgl.total)
+		// (a write larger than the buffer goes out as one frame: the fragments come from writes of
+		// at most the buffer size, with the other ways of sending a fragment in between)
+		var werr1, werr2 error
+		for off := 0; off < cfgl.total && werr1 == nil && werr2 == nil; {
+			k := cfgl.n
+			if k > cfgl.total-off {
+				k = cfgl.total - off
+			}
+			switch {
+			case off%4099 == 7 && w.Buffered() == 0:
+				_, werr2 = w.WriteThrough(msg[off : off+k])
+			case off%5003 == 11:
+				_, werr1 = w.Write(msg[off : off+k])
+				if werr1 == nil {
+					werr1 = w.FlushFragment()
+				}
+			default:
+				_, werr1 = w.Write(msg[off : off+k])
+			}
+			off += k
+		}
+		ferr := w.Flush()
+		frames, rest := vh.ParseFrames(d.Buf)
+		bad, got := "", []byte{}
+		for i, f := range frames {
+			got = append(got, f.Raw...)
+			switch {
+			case i == 0 && (f.Op != int(ws.OpBinary) || f.Rsv != 4):
+				bad = fmt.Sprintf("first frame: op=%d rsv=%d", f.Op, f.Rsv)
+			case i > 0 && (f.Op != 0 || f.Rsv != 0):
+				bad = fmt.Sprintf("frame #%d: op=%d rsv=%d, want a continuation without RSV bits", i, f.Op, f.Rsv)
+			case f.Fin != (i == len(frames)-1):
+				bad = fmt.Sprintf("frame #%d: fin=%v", i, f.Fin)
+			}
+			if bad != "" {
+				break
+			}
+		}
+		if bad == "" && (werr1 != nil || werr2 != nil || ferr != nil || len(rest) != 0 || !bytes.Equal(got, msg)) {
+			bad = fmt.Sprintf("errors %v %v %v, %d stray bytes, payload equal: %v", werr1, werr2, ferr, len(rest), bytes.Equal(got, msg))
+		}
+		if bad != "" {
+			t.meta.Direct = append(t.meta.Direct, map[string]interface{}{"key": key, "what": "message of " + fmt.Sprint(len(frames)) + " fragments: " + bad})
+		}
+		t.traces++
 	}
 	t.finish(c)
 }
